@@ -698,6 +698,17 @@ func (r *resolver) delayRecursiveUses(parent HasDataDefinitions, u *Uses, resolv
 // now resolved list of definitions.  There's a chance the resolved list might also have
 // placeholders so loop until all placeholders are replaced.
 func (r *resolver) fillInRecursiveDefs(root *Module) error {
+	// a placeholder queued twice for the same parent is among the definitions it
+	// stands for: the grouping refers to itself with no data node in between and
+	// replacing it would never end (RFC 7950 Sec 7.12)
+	type placeholder struct {
+		parent HasDataDefinitions
+		uses   *Uses
+	}
+	queued := make(map[placeholder]struct{})
+	for _, entry := range r.unresolvedUses {
+		queued[placeholder{entry.parent, entry.uses}] = struct{}{}
+	}
 	for len(r.unresolvedUses) > 0 {
 		if r.trace {
 			fc.Debug.Printf("DEQUE %d items", len(r.unresolvedUses))
@@ -723,6 +734,10 @@ func (r *resolver) fillInRecursiveDefs(root *Module) error {
 							if r.trace {
 								fc.Debug.Printf("delayed: resubmitting %s.%s", entry.parent.Ident(), subdef.Ident())
 							}
+							if _, again := queued[placeholder{entry.parent, u}]; again {
+								return fmt.Errorf("%s - grouping %s refers to itself", SchemaPath(entry.parent), u.Ident())
+							}
+							queued[placeholder{entry.parent, u}] = struct{}{}
 							subr := findResolved(unresolved, u)
 							r.unresolvedUses = append(r.unresolvedUses, &usesUnresolved{entry.parent, subr, u})
 						}
